@@ -233,8 +233,10 @@ END_LEXICAL_FORM:
 			goto END_TOKEN
 		}
 
-		return rdf.Literal{}, nil, grammar.R_literal.Err(grammar.R_STRING_LITERAL_QUOTE.Err(r.newOffsetError(err, uncommitted.AsDecodedRunes(), cursorio.DecodedRunes{})))
+		return rdf.Literal{}, nil, grammar.R_literal.Err(grammar.R_STRING_LITERAL_QUOTE.Err(r.newOffsetError(err, cursorio.DecodedRunes{}, cursorio.DecodedRunes{})))
 	}
+
+	// the quoted string is committed: from here on only r0, r1 are pending
 
 	switch {
 	case r0.Rune == '@':
@@ -262,18 +264,18 @@ END_LEXICAL_FORM:
 	case r0.Rune == '^':
 		r1, err := r.buf.NextRune()
 		if err != nil {
-			return rdf.Literal{}, nil, grammar.R_literal.Err(r.newOffsetError(err, append(uncommitted, r0).AsDecodedRunes(), cursorio.DecodedRunes{}))
+			return rdf.Literal{}, nil, grammar.R_literal.Err(r.newOffsetError(err, r0.AsDecodedRunes(), cursorio.DecodedRunes{}))
 		} else if r1.Rune != '^' {
-			return rdf.Literal{}, nil, grammar.R_literal.Err(r.newOffsetError(cursorioutil.UnexpectedRuneError{Rune: r1.Rune}, append(uncommitted[:], r0).AsDecodedRunes(), r1.AsDecodedRunes()))
+			return rdf.Literal{}, nil, grammar.R_literal.Err(r.newOffsetError(cursorioutil.UnexpectedRuneError{Rune: r1.Rune}, r0.AsDecodedRunes(), r1.AsDecodedRunes()))
 		}
 
 		r.commit(cursorio.DecodedRuneList{r0, r1}.AsDecodedRunes())
 
 		r2, err := r.buf.NextRune()
 		if err != nil {
-			return rdf.Literal{}, nil, grammar.R_literal.Err(r.newOffsetError(err, append(uncommitted, r0, r1).AsDecodedRunes(), cursorio.DecodedRunes{}))
+			return rdf.Literal{}, nil, grammar.R_literal.Err(r.newOffsetError(err, cursorio.DecodedRunes{}, cursorio.DecodedRunes{}))
 		} else if r2.Rune != '<' {
-			return rdf.Literal{}, nil, grammar.R_literal.Err(r.newOffsetError(cursorioutil.UnexpectedRuneError{Rune: r2.Rune}, append(uncommitted[:], r0, r1).AsDecodedRunes(), r2.AsDecodedRunes()))
+			return rdf.Literal{}, nil, grammar.R_literal.Err(r.newOffsetError(cursorioutil.UnexpectedRuneError{Rune: r2.Rune}, cursorio.DecodedRunes{}, r2.AsDecodedRunes()))
 		}
 
 		iri, iriRange, err := r.captureOpenIRI(cursorio.DecodedRuneList{r2})
